@@ -38,6 +38,14 @@ Fixpoint strictly_increasing (l : list Z) : bool :=
   | _ => true
   end.
 
+(** What the aggregator itself guarantees for ANY configured list (it sorts its copy):
+    non-decreasing boundaries.  Equal neighbours give an empty bucket (b, b]. *)
+Fixpoint weakly_increasing (l : list Z) : bool :=
+  match l with
+  | a :: (b :: _) as r => (a <=? b) && weakly_increasing r
+  | _ => true
+  end.
+
 (** Bucket k of boundaries b_0 < ... < b_(n-1) is (b_(k-1), b_k], with b_(-1) = -oo, b_n = +oo. *)
 Definition in_explicit_bucket (bounds : list Z) (k : nat) (v : Z) : Prop :=
   (k <= length bounds)%nat /\
